@@ -113,11 +113,6 @@ class FileResolver:
                 if not self._is_dir_excluded(d, rel_to_root / d, current, tool_ignore, root)
             ]
 
-            # Collect gitignore specs for this directory (including ancestors)
-            gitignore_specs: list[pathspec.PathSpec] = []
-            if self._config.respect_gitignore:
-                gitignore_specs = self._get_gitignore_chain(current, root)
-
             # Yield files matching include patterns (applying gitignore + tool ignore)
             for filename in filenames:
                 filepath = current / filename
@@ -129,7 +124,7 @@ class FileResolver:
                     continue
                 if self._exceeds_max_size(filepath):
                     continue
-                if any(spec.match_file(filename) for spec in gitignore_specs):
+                if self._config.respect_gitignore and self._is_gitignored(filepath, False, root):
                     continue
                 if tool_ignore and tool_ignore.match_file(filename):
                     continue
@@ -154,9 +149,8 @@ class FileResolver:
 
         if self._config.respect_gitignore:
             root = walk_root if walk_root is not None else current_dir
-            for spec in self._get_gitignore_chain(current_dir, root):
-                if spec.match_file(dir_with_slash):
-                    return True
+            if self._is_gitignored(current_dir / dirname, True, root):
+                return True
 
         if tool_ignore and tool_ignore.match_file(dir_with_slash):
             return True
@@ -207,9 +201,30 @@ class FileResolver:
             self._gitignore_cache[directory] = load_gitignore(directory)
         return self._gitignore_cache[directory]
 
-    def _get_gitignore_chain(self, directory: Path, walk_root: Path) -> list[pathspec.PathSpec]:
-        """Collect all gitignore specs from walk_root down to directory (inclusive)."""
-        specs: list[pathspec.PathSpec] = []
+    def _is_gitignored(self, path: Path, is_dir: bool, walk_root: Path) -> bool:
+        """
+        Decide as git does whether `path` is ignored by the `.gitignore` files from
+        `walk_root` down to its directory: each file's patterns are matched against the path
+        relative to that file's directory, the last matching pattern of a file wins (a
+        negated pattern re-includes), and a deeper file overrides a shallower one.
+        """
+        resolved = path.parent.resolve() / path.name
+        ignored = False
+        for directory, spec in self._get_gitignore_chain(path.parent, walk_root):
+            relative = resolved.relative_to(directory).as_posix() + ("/" if is_dir else "")
+            matched = spec.check_file(relative).include
+            if matched is not None:
+                ignored = matched
+        return ignored
+
+    def _get_gitignore_chain(
+        self, directory: Path, walk_root: Path
+    ) -> list[tuple[Path, pathspec.PathSpec]]:
+        """
+        Collect all gitignore specs from walk_root down to directory (inclusive),
+        each with the directory its file lives in.
+        """
+        specs: list[tuple[Path, pathspec.PathSpec]] = []
         resolved_root = walk_root.resolve()
         resolved_dir = directory.resolve()
         # Walk from root down to current directory
@@ -217,7 +232,7 @@ class FileResolver:
         while True:
             spec = self._get_gitignore(current)
             if spec is not None:
-                specs.append(spec)
+                specs.append((current, spec))
             if current == resolved_dir:
                 break
             try:
